@@ -422,6 +422,138 @@ func posImplLine(fen string) string {
 	})
 }
 
+// The same line for `fen`, every question asked right after the SAME question about another position `prevFen` (a near twin:
+// same placement, other en-passant or castling field).  An answer must not depend on what was asked before; the expected
+// line is that of `fen` alone.
+func posImplLineAfter(prevFen, fen string) string {
+	return guarded(func() string {
+		gen0, err0 := engine.NewGeneratorFromFen(prevFen)
+		gen, err := engine.NewGeneratorFromFen(fen)
+		if err != nil || err0 != nil {
+			return "REJ"
+		}
+		p0, p := gen0.VerifTop(), gen.VerifTop()
+		snapText := engine.VerifSnapshot(p)
+		engine.VerifLegal(gen0)
+		legal := engine.VerifLegal(gen)
+		engine.VerifTactical(gen0)
+		tact := engine.VerifTactical(gen)
+		engine.VerifCountMoves(p0)
+		cnt := engine.VerifCountMoves(p)
+		engine.VerifCountTacticalMoves(p0)
+		tcnt := engine.VerifCountTacticalMoves(p)
+		chk := 0
+		engine.VerifInCheck(p0)
+		if engine.VerifInCheck(p) {
+			chk = 1
+		}
+		engine.VerifAttackMap(p0)
+		att := engine.VerifAttackMap(p)
+		engine.VerifEval(p0)
+		full, mat := engine.VerifEval(p)
+		after := "same"
+		if s2 := engine.VerifSnapshot(p); s2 != snapText {
+			after = "snapshot-after-evaluation " + s2
+		} else if l2 := engine.VerifLegal(gen); l2 != legal {
+			after = "legal-after-evaluation " + l2
+		} else if t2 := engine.VerifTactical(gen); t2 != tact {
+			after = "tactical-after-evaluation " + t2
+		}
+		return fmt.Sprintf("OK|%s|%s|%s|%d|%d|%d|%s|%d|%d|%s", snapText, legal, tact, cnt, tcnt, chk, att, full, mat, after)
+	})
+}
+
+// placement of a FEN as an 8x8 grid (rank 8 first), and back
+func fenGrid(fen string) (grid [8][8]byte, rest []string, ok bool) {
+	f := strings.Fields(fen)
+	if len(f) != 6 {
+		return grid, nil, false
+	}
+	rows := strings.Split(f[0], "/")
+	if len(rows) != 8 {
+		return grid, nil, false
+	}
+	for r, row := range rows {
+		c := 0
+		for _, ch := range []byte(row) {
+			if ch >= '1' && ch <= '8' {
+				c += int(ch - '0')
+			} else if c < 8 {
+				grid[r][c] = ch
+				c++
+			} else {
+				return grid, nil, false
+			}
+		}
+		if c != 8 {
+			return grid, nil, false
+		}
+	}
+	return grid, f[1:], true
+}
+func gridFen(grid [8][8]byte, rest []string) string {
+	var sb strings.Builder
+	for r := 0; r < 8; r++ {
+		if r > 0 {
+			sb.WriteByte('/')
+		}
+		empty := 0
+		for c := 0; c < 8; c++ {
+			if grid[r][c] == 0 {
+				empty++
+				continue
+			}
+			if empty > 0 {
+				sb.WriteByte(byte('0' + empty))
+				empty = 0
+			}
+			sb.WriteByte(grid[r][c])
+		}
+		if empty > 0 {
+			sb.WriteByte(byte('0' + empty))
+		}
+	}
+	return sb.String() + " " + strings.Join(rest, " ")
+}
+
+// loads: the loader itself rejects a position whose side not to move is in check
+func legalFen(fen string) bool {
+	_, err := engine.NewGeneratorFromFen(fen)
+	return err == nil
+}
+
+// "same attackers, other blockers": for a position whose mover is in check, the same position with a knight of the mover
+// put on a square where it shields the king (up to two of them)
+func blockerTwins(fen string) []string {
+	g, err := engine.NewGeneratorFromFen(fen)
+	if err != nil || !engine.VerifInCheck(g.VerifTop()) {
+		return nil
+	}
+	grid, rest, ok := fenGrid(fen)
+	if !ok {
+		return nil
+	}
+	kn := byte('N')
+	if rest[0] == "b" {
+		kn = 'n'
+	}
+	var out []string
+	for r := 0; r < 8 && len(out) < 2; r++ {
+		for c := 0; c < 8 && len(out) < 2; c++ {
+			if grid[r][c] != 0 {
+				continue
+			}
+			grid[r][c] = kn
+			tw := gridFen(grid, rest)
+			grid[r][c] = 0
+			if g2, err := engine.NewGeneratorFromFen(tw); err == nil && !engine.VerifInCheck(g2.VerifTop()) && legalFen(tw) {
+				out = append(out, tw)
+			}
+		}
+	}
+	return out
+}
+
 // colour-flipped FEN: ranks reversed, piece colours, side to move, castling rights and ep square swapped
 func mirrorFen(fen string) string {
 	f := strings.Fields(fen)
@@ -460,7 +592,7 @@ func mirrorFen(fen string) string {
 }
 
 type posStats struct {
-	total, fromPlayout, fromSynthetic, fromTemplate, fromSuite, inCheck, withEp, withCastle, heavy, rejected int
+	total, fromPlayout, fromSynthetic, fromTemplate, fromSuite, inCheck, withEp, withCastle, heavy, rejected, twins int
 }
 
 func init() {
@@ -490,6 +622,30 @@ func init() {
 			// mirrored twin right after it (C15 compares the two evaluations)
 			mf := mirrorFen(fen)
 			so.emit("POS\t"+mf, posImplLine(mf))
+			// near twins (same placement and side, en-passant field or castling rights dropped), each asked right after the other
+			if ff := strings.Fields(fen); len(ff) == 6 && (ff[3] != "-" || ff[2] != "-" && st.total%8 == 0) {
+				tw := append([]string{}, ff...)
+				if ff[3] != "-" {
+					tw[3] = "-"
+				} else {
+					tw[2] = "-"
+				}
+				twin := strings.Join(tw, " ")
+				if legalFen(twin) && legalFen(fen) {
+					so.emit("POSH\t"+fen+"\t"+twin, posImplLineAfter(twin, fen))
+					so.emit("POSH\t"+twin+"\t"+fen, posImplLineAfter(fen, twin))
+					st.twins++
+				}
+			}
+			// same attackers, other blockers: a mover in check (always when it still has castling rights, else a sample), with and
+			// without a shielding knight
+			if ff := strings.Fields(fen); len(ff) == 6 && (ff[2] != "-" || st.total%4 == 0) && legalFen(fen) {
+				for _, twin := range blockerTwins(fen) {
+					so.emit("POSH\t"+fen+"\t"+twin, posImplLineAfter(twin, fen))
+					so.emit("POSH\t"+twin+"\t"+fen, posImplLineAfter(fen, twin))
+					st.twins++
+				}
+			}
 			st.total++
 			switch src {
 			case "playout":
@@ -535,8 +691,8 @@ func init() {
 		for i := 0; i < synth; i++ {
 			add(randomPlacement(r), "synthetic")
 		}
-		fmt.Fprintf(os.Stderr, "STATS pos total=%d playout=%d synthetic=%d template=%d suite=%d in_check=%d with_ep=%d with_castle=%d rejected=%d\n",
-			st.total, st.fromPlayout, st.fromSynthetic, st.fromTemplate, st.fromSuite, st.inCheck, st.withEp, st.withCastle, st.rejected)
+		fmt.Fprintf(os.Stderr, "STATS pos total=%d playout=%d synthetic=%d template=%d suite=%d in_check=%d with_ep=%d with_castle=%d rejected=%d asked_after_a_near_twin=%d\n",
+			st.total, st.fromPlayout, st.fromSynthetic, st.fromTemplate, st.fromSuite, st.inCheck, st.withEp, st.withCastle, st.rejected, st.twins)
 	}
 }
 
